@@ -45,6 +45,13 @@ pub struct Case {
     /// for each input: the marker (`dep<k>-from-dir` / `dep<k>-from-lp`) that must appear in the
     /// output, if the layout fixes independently of the library where its `dep` comes from
     pub expect_dep_from: Vec<Option<String>>,
+    /// markers of files that exist where the tool must NOT look (the cwd when the input is in a
+    /// sub-directory; `<input dir>/<load path>`): they must never reach stdout
+    #[serde(default)]
+    pub forbidden: Vec<String>,
+    /// per input: its dependency exists only in such a place, so the invocation must fail
+    #[serde(default)]
+    pub unresolvable: Vec<bool>,
 }
 
 fn cli_bin() -> PathBuf {
@@ -342,6 +349,34 @@ pub fn judge(case: &Case, tag: &str, stats: &mut Stats) -> (Vec<(String, String,
             }
         }
     }
+    // places the tool must not search, independently of the library (which shares FsLoader with the tool)
+    {
+        let text = String::from_utf8_lossy(&out.stdout);
+        for m in &case.forbidden {
+            stats.inc("probe:decoy_dependency_placed");
+            if text.contains(m.as_str()) {
+                fail(
+                    "wrong_resolution_order",
+                    format!("the output contains {m}: a dependency was loaded from a directory that is neither the input file's directory nor the --load-path"),
+                );
+            }
+        }
+        // (re-checked against the files as they are: the minimiser may have cut the load statement away)
+        let unresolvable = case
+            .unresolvable
+            .iter()
+            .zip(&case.inputs)
+            .any(|(u, name)| *u && case.files.get(name).is_some_and(|t| t.contains("\"dep")));
+        if unresolvable {
+            stats.inc("probe:dependency_only_in_decoy_place");
+            if status_ok {
+                fail(
+                    "success_status_but_input_fails",
+                    "an input's dependency exists neither in its directory nor in the --load-path (only in a directory that must not be searched), but the exit status is 0".into(),
+                );
+            }
+        }
+    }
     if !expected.is_empty() && expected.len() > 65536 {
         stats.inc("probe:output_larger_than_pipe_buffer");
     }
@@ -390,6 +425,8 @@ pub fn gen_case(rng: &mut Rng) -> Case {
     let mut dirs = vec![];
     let mut inputs = vec![];
     let mut expect_dep_from = vec![];
+    let mut forbidden = vec![];
+    let mut unresolvable = vec![];
     let load_path = if rng.chance(1, 2) { Some(rng.pick(&["lp", "inc/lp"]).to_string()) } else { None };
     if let Some(lp) = &load_path {
         dirs.push(lp.clone());
@@ -401,6 +438,7 @@ pub fn gen_case(rng: &mut Rng) -> Case {
         let dir = *rng.pick(&["", "", "sub", "sub/deeper", ".", "./sub"]);
         let join = |d: &str, f: &str| if d.is_empty() { f.to_string() } else { format!("{d}/{f}") };
         let mut expect = None;
+        let mut unres = false;
         match if allow_fail { rng.below(12) } else { 5 + rng.below(7) } {
             0 => {
                 // missing path
@@ -445,6 +483,26 @@ pub fn gen_case(rng: &mut Rng) -> Case {
                     if in_lp {
                         files.insert(join(load_path.as_ref().unwrap(), &fname), format!("d{k} {{ from: dep{k}-from-lp; }}\n"));
                     }
+                    // decoys where the tool must not look: the cwd (input in a sub-directory) and
+                    // the load path taken relative to the input's directory
+                    let in_subdir = !matches!(dir, "" | ".");
+                    let mut decoy = false;
+                    if in_subdir && rng.chance(1, 2) {
+                        files.insert(fname.clone(), format!("d{k} {{ from: dep{k}-from-cwd; }}\n"));
+                        forbidden.push(format!("dep{k}-from-cwd"));
+                        decoy = true;
+                    }
+                    if in_subdir && load_path.is_some() && rng.chance(1, 3) {
+                        files.insert(
+                            join(&join(dir, load_path.as_ref().unwrap()), &fname),
+                            format!("d{k} {{ from: dep{k}-from-inputdir-lp; }}\n"),
+                        );
+                        forbidden.push(format!("dep{k}-from-inputdir-lp"));
+                        decoy = true;
+                    }
+                    if decoy && !in_dir && !in_lp {
+                        unres = true;
+                    }
                     expect = if in_dir {
                         Some(format!("dep{k}-from-dir"))
                     } else if in_lp {
@@ -461,6 +519,7 @@ pub fn gen_case(rng: &mut Rng) -> Case {
             }
         }
         expect_dep_from.push(expect);
+        unresolvable.push(unres);
     }
     // a dependency marker is only expected if every earlier input compiles; the
     // judge only looks at markers when the status is 0, which implies that.
@@ -483,6 +542,8 @@ pub fn gen_case(rng: &mut Rng) -> Case {
             _ => StdoutKind::Normal,
         },
         expect_dep_from,
+        forbidden,
+        unresolvable,
     }
 }
 
@@ -554,6 +615,9 @@ impl Prop for C40 {
                 let mut c = case.clone();
                 c.inputs.remove(k);
                 c.expect_dep_from.remove(k);
+                if k < c.unresolvable.len() {
+                    c.unresolvable.remove(k);
+                }
                 push(c, &mut out);
             }
         }
